@@ -101,8 +101,8 @@ func opPoolRun(t Task) Result {
 		d = &tokDrv{p: token.NewPool(size)}
 	}
 	seen := map[uintptr]int{}
-	obs := make([]interface{}, 0, len(tList(t, "ops")))
-	for _, o := range tList(t, "ops") {
+	obs := make([]interface{}, 0, len(tArr(t, "ops")))
+	for _, o := range tArr(t, "ops") {
 		op := o.([]interface{})
 		switch op[0].(string) {
 		case "g":
